@@ -49,6 +49,9 @@ def closed_path(rng):
             rows.append((x, y, z, f, s))
         x, y, z, f, _s = rows[-1]
         rows.append((x, y, z, f, 0))
+        if rng.random() < 0.12:      # a feed the compiler must refuse - before anything of this path is emitted
+            j = rng.randrange(len(rows))
+            rows[j] = rows[j][:3] + (rng.choice([0.0, 1e-12]),) + rows[j][4:]
         return [list(map(float, r)) for r in rows]
     param, calls = builders.gen_wg_calls(rng, max_ops=2)
     param['cmd_rate_max'] = 20
